@@ -97,6 +97,7 @@ type Exec struct {
 	// configuration
 	tier      int
 	unwind    int
+	unwind0   int // the tier's unwinding bound; a harness may raise it for one path (verifBound("UNWIND", n))
 	stepLimit int64
 	casemax   int
 	feasTimeout   int
